@@ -286,6 +286,7 @@ func runC02(c *Ctx) {
 		}
 	}
 	c02Lexical(c, g)
+	spHistories(c, g)
 	randomCombinations(c, g, 400, false)
 	c02MovingClock(c)
 }
